@@ -1015,6 +1015,24 @@ func (s *c16Scn) replayFinding13() {
 	s.restoreRaw(b, al, [8]int{}, [8]int{}) // dns-udp6 revives by restore without latency
 }
 
+// boundary of the one-hour sentinel in NotifyLatencyChange: a node that revives with a sorting latency
+// above time.Hour (minus tolerance) is added to the set but not selected (no group callback); at
+// exactly one hour it is selected.  Mirrors Props.kernel_bit_full_fails.
+func (s *c16Scn) replayHourSentinel() {
+	a := s.addNode(0)
+	s.addGroup("min_last", 0, []*c16Node{a}, []time.Duration{0})
+	s.forced(a, "t4")
+	s.probe(a, "t4", fmt.Sprintf("ok:%d", int64(time.Hour+1)), "-")
+	s.forced(a, "t6")
+	s.probe(a, "t6", fmt.Sprintf("ok:%d", int64(time.Hour)), "-")
+	b := s.addNode(0)
+	s.addGroup("min_last", 50*time.Millisecond, []*c16Node{b}, []time.Duration{0})
+	s.forced(b, "d4")
+	s.probe(b, "d4", fmt.Sprintf("ok:%d", int64(time.Hour-50*time.Millisecond+1)), "-")
+	s.forced(b, "d6")
+	s.probe(b, "d6", fmt.Sprintf("ok:%d", int64(time.Hour-50*time.Millisecond)), "-")
+}
+
 func TestVerifC16(t *testing.T) {
 	st := dialer.VOpenStream("c16")
 	defer st.Close()
@@ -1033,14 +1051,16 @@ func TestVerifC16(t *testing.T) {
 		nScn, maxEv = 2500, 110
 	}
 	nScn = dialer.VEnvInt("VERIF_C16_SCENARIOS", nScn)
-	for i := 0; i < nScn+1; i++ {
+	for i := -1; i < nScn+1; i++ {
 		rs := r.Fork()
 		synctest.Test(t, func(t *testing.T) {
 			s := newC16Scn(rs, st, stats)
 			s.distinct = distinct
 			defer s.close()
 			out := dialer.VRecover(func() string {
-				if i == 0 {
+				if i == -1 {
+					s.replayHourSentinel()
+				} else if i == 0 {
 					s.replayFinding13()
 				} else {
 					s.runScenario(maxEv)
@@ -1053,6 +1073,6 @@ func TestVerifC16(t *testing.T) {
 		})
 	}
 	stats.Add("distinct", len(distinct))
-	stats.Add("scenarios", nScn+1)
+	stats.Add("scenarios", nScn+2)
 	stats.Write("c16")
 }
